@@ -719,6 +719,49 @@ fn w_colorspace_function_write() -> bool {
     }
     bad
 }
+/// a chain of N distinct page-tree nodes, each the /Parent of the next: loading the innermost node loads all ancestors recursively
+fn w_deep_parent_chain() -> bool {
+    use pdf::object::*;
+    let n: u64 = std::env::var("DEPTH").ok().and_then(|s| s.parse().ok()).unwrap_or(20000);
+    let mut objs: Vec<(u64, String)> = vec![(1, "<< /Type /Catalog /Pages 2 0 R >>".into())];
+    // node k (object k+2) has parent k+1; node 0 is the root
+    objs.push((2, format!("<< /Type /Pages /Count 1 /Kids [3 0 R] >>")));
+    for k in 1..n {
+        objs.push((k + 2, format!("<< /Type /Pages /Parent {} 0 R /Count 1 /Kids [{} 0 R] >>", k + 1, k + 3)));
+    }
+    objs.push((n + 2, format!("<< /Type /Page /Parent {} 0 R /MediaBox [0 0 10 10] >>", n + 1)));
+    let refs: Vec<(u64, &str)> = objs.iter().map(|(i, s)| (*i, s.as_str())).collect();
+    let file = pdf::file::FileOptions::uncached().load(mkpdf(&refs, "")).unwrap();
+    let r = file.resolver();
+    let leaf = r.get::<PagesNode>(Ref::from_id(n + 2));
+    println!("page whose chain of /Parent nodes is {} deep -> {:?}", n, short(leaf.map(|_| ())));
+    false
+}
+/// a chain of /Parent nodes whose root fails to load: before the fix every level loaded its parent twice (2^depth loads)
+fn w_failing_chain_time() -> bool {
+    use pdf::object::*;
+    let mut slow = false;
+    for n in [8u64, 12, 16, 20] {
+        let mut objs: Vec<(u64, String)> = vec![(1, "<< /Type /Catalog /Pages 2 0 R >>".into()), (2, "42".into())];
+        for k in 1..n {
+            objs.push((k + 2, format!("<< /Type /Pages /Parent {} 0 R /Count 1 /Kids [{} 0 R] >>", k + 1, k + 3)));
+        }
+        objs.push((n + 2, format!("<< /Type /Page /Parent {} 0 R /MediaBox [0 0 10 10] >>", n + 1)));
+        let refs: Vec<(u64, &str)> = objs.iter().map(|(i, s)| (*i, s.as_str())).collect();
+        let data = mkpdf(&refs, "");
+        // open without the catalog's page tree being loaded: use the storage directly
+        let storage = pdf::file::Storage::with_cache(data, pdf::object::ParseOptions::strict(), pdf::file::NoCache, pdf::file::NoCache, pdf::file::NoLog);
+        let mut storage = match storage { Ok(s) => s, Err(e) => { println!("open failed: {}", e); return false; } };
+        let _ = storage.load_storage_and_trailer();
+        let r = storage.resolver();
+        let t0 = std::time::Instant::now();
+        let leaf = r.get::<PagesNode>(Ref::from_id(n + 2));
+        let dt = t0.elapsed();
+        println!("depth {:2}: load of the innermost node -> {} in {:?}", n, if leaf.is_ok() { "Ok" } else { "Err" }, dt);
+        slow |= dt.as_millis() > 2000;
+    }
+    slow
+}
 fn w_crypt_keylen() -> bool {
     let enc = "<< /Filter /Standard /V 2 /R 3 /Length 0 /P -1 /O (01234567890123456789012345678901) /U (01234567890123456789012345678901) >>";
     let data = mkpdf(&[(1, CATALOG), (2, PAGES), (3, PAGE), (9, enc)], "/Encrypt 9 0 R /ID [(abcdefghijklmnop) (abcdefghijklmnop)]");
@@ -769,6 +812,8 @@ fn main() {
         ("page_count_overflow", w_page_count_overflow),
         ("objstm_offset_overflow", w_objstm_offset_overflow),
         ("crypt_keylen", w_crypt_keylen),
+        ("failing_chain_time", w_failing_chain_time),
+        ("deep_parent_chain", w_deep_parent_chain),
         ("colorspace_function_write", w_colorspace_function_write),
         ("ps_roll", w_ps_roll),
         ("ps_parse", w_ps_parse),
